@@ -159,16 +159,6 @@ def run_shard(desc, seed, tier, col):
 
 # ---------------------------------------------------------------- known findings
 
-def _f_opt_empty_record(failure):
-    if failure['sub'] != 'ber' or failure['kind'] != 'value' or not failure.get('obs'):
-        return False
-    case = fz.case_of(failure)
-    T = case['T']
-    if not fz.absent_optional_empty_record(T, case['v']):
-        return False
-    got = ir.from_jsonable(failure['obs']).get('got')
-    return got is not None and ir.same(T, fz.strip_empty_optional_records(T, got),
-                                       fz.strip_empty_optional_records(T, case['v']))
 
 
 def _f_ifnotempty(failure):
@@ -191,27 +181,16 @@ def _f_ifnotempty(failure):
     return False
 
 
-def _cer_bits_feature(T, v):
-    return any(t['k'] == 'BITSTRING' and x[0] > 7992 for t, x in fz.present_nodes(T, v))
 
 
-def _shrink_bits(T, v):
-    def fn(t, x):
-        if t['k'] == 'BITSTRING' and x[0] > 7992:
-            return (7992, x[1] >> (x[0] - 7992))
-        return x
-    return T, fz.map_values(T, v, fn)
 
 
-_MODEL_BASED = (_f_opt_empty_record, _f_ifnotempty)
+_MODEL_BASED = (_f_ifnotempty,)
 
 FINDINGS = {
     'F01-stray-eoo': fz.by_neutralising(run_case, fz.explicit_over_nonindef_prim, fz.neutralise_explicit_prims,
                                         subs=('ber', 'cer', 'cer-form'), others=_MODEL_BASED),
-    'F03-optional-empty-record': _f_opt_empty_record,
     'F05-ifnotempty': _f_ifnotempty,
-    'F06-cer-bitstring-1001': fz.by_neutralising(run_case, _cer_bits_feature, _shrink_bits, subs=('cer-form',),
-                                                 kinds=('segments',)),
     'F07-real10-nr3': fz.by_neutralising(run_case, fz.real10_present, fz.neutralise_real10, subs=('der',),
                                          kinds=('bytes',), others=_MODEL_BASED),
 }
